@@ -277,6 +277,48 @@ class OpsMixin:
         else:
             self.violate("C09.raises", f"constructor accepted pool_size={v}")
 
+    # ------------------------------------------------------------ pool_size
+    def op_set_size(self, step, issuer):
+        pr = self.pools[step["pool"]]
+        v = step["v"]
+        val = float("inf") if v is None else v
+        self.refresh_created(pr)
+        snap = self.snapshot(pr)
+        self.ev("op_call", "set_size", pr.idx, v, issuer[0])
+        old = pr.size
+        try:
+            pr.obj.pool_size = val
+        except ValueError:
+            self.ev("op_raise", "set_size", pr.idx, "ValueError")
+            if v is None or v >= 0:
+                self.violate("C15.negative", f"pool_size = {v} raised ValueError")
+            elif self.snapshot(pr) != snap:
+                self.violate("C15.negative", f"rejected pool_size = {v} changed the pool: {snap} -> {self.snapshot(pr)}")
+            self.sit["C15.negative"] += 1
+            return
+        except Exception as e:  # noqa: BLE001
+            self.violate("C15.negative", f"pool_size = {v} raised {type(e).__name__}: {e}")
+            return
+        if v is not None and v < 0:
+            self.violate("C15.negative", f"pool_size = {v} was accepted")
+            return
+        pr.size = v
+        pr.size_set_iter = self.loop.vf_iteration
+        pr.size_changed = True
+        pr.size_track = True
+        self.triggers.add("T.size_reassigned")
+        oc, nc_ = (99 if old is None else old), (99 if v is None else v)
+        kind = "grow" if nc_ > oc else "shrink" if nc_ < oc else "same"
+        self.sit[f"C15.assign.{kind}"] += 1
+        if pr.L:
+            self.sit[f"C15.assign.{kind}.busy"] += 1
+        if self.pending_work(pr):
+            self.sit[f"C15.assign.{kind}.waiting"] += 1
+        if nc_ < pr.L:
+            self.sit["C15.assign.below_running"] += 1
+        self.note_op("set_size", f"{kind}:{min(pr.L, 3)}:{'w' if self.pending_work(pr) else '-'}")
+        self.check_instant(pr, ("set_size", v))
+
     # ------------------------------------------------------------ lock / unlock
     def op_lock(self, step, issuer):
         pr = self.pools[step["pool"]]
@@ -397,6 +439,7 @@ class OpsMixin:
                 t.unbegun_cancelled = True
                 self.triggers.add("T.cancel_unbegun")
                 self.ev("cancel_unbegun", t.pool.idx, t.tid)
+                self.uncount(t)
                 self._advance(t)
             return
         if t.pending:
